@@ -6,6 +6,10 @@ pub mod r#type;
 pub mod unit;
 pub mod unwind;
 mod utils;
+#[cfg(bs_verif)]
+pub mod verif_export {
+    pub use super::utils::PathSearchIndex;
+}
 
 pub use self::unwind::DwarfUnwinder;
 
